@@ -155,11 +155,14 @@ func init() {
 						variant = append(variant, "FILE")
 					case 3:
 						stdin = []byte(rq.stdin)
-						stdinMode = []string{"file", "slow"}[(i/5)%2] // `< file` redirect; a slow producer writing small blocks
-						variant = append(variant, "stdin-"+stdinMode)
+						stdinMode = "slow" // a slow producer writing small blocks with pauses
+						variant = append(variant, "stdin-slow")
 					default:
 						stdin = []byte(rq.stdin)
-						variant = append(variant, "stdin")
+						if i > 0 {
+							stdinMode = "file" // `< file` redirect instead of a pipe
+						}
+						variant = append(variant, "stdin"+map[string]string{"": "", "file": "-file"}[stdinMode])
 					}
 				}
 				ofile := ""
